@@ -21,7 +21,7 @@ fn r1(a: &[f64], b: f64) -> Aff {
 
 pub fn cases(tier: Tier) -> Vec<Case> {
     let mut out = vec![];
-    let (nn, keep1, keep2) = match tier { Tier::Quick => (7, 3, 41), Tier::Thorough => (9, 5, 61) };
+    let (nn, keep1, keep2) = match tier { Tier::Quick => (7, 1, 7), Tier::Thorough => (9, 2, 17) };
     // dim 1: parallel and coincident hyperplanes
     let g1 = TreeGen {
         k: 2,
@@ -219,6 +219,11 @@ pub fn run_case(c: &Case) -> CaseOut {
             return;
         }
         let w = &face.w;
+        let (n, e) = crate::snap::conform_face(&tree, &s, face, true);
+        conf += n;
+        if let Some(e) = e {
+            errs.push(("conformance".into(), format!("real evaluator disagrees with documented routing: {e}")));
+        }
         let decs = s.decisions_at(w).unwrap();
         let routed = s.route_plain(w).unwrap();
         let mut on_route: Vec<usize> = decs.iter().map(|d| d.0).collect();
